@@ -44,6 +44,19 @@ static void streams_start(int nes_secondary, ABT_sched_predef predef)
     g_nes = 1 + nes_secondary;
     CHK(ABT_xstream_self(&g_xs[0]));
     CHK(ABT_xstream_get_main_pools(g_xs[0], 1, &g_pools[0]));
+    if (opt_long("shared", 0) && nes_secondary >= 2) {
+        /* all secondary streams serve one shared pool: a ULT that blocks may be
+         * resumed on another stream than the one it blocked on */
+        ABT_pool sp;
+        CHK(ABT_pool_create_basic(ABT_POOL_FIFO, ABT_POOL_ACCESS_MPMC, ABT_TRUE, &sp));
+        for (int i = 1; i < g_nes; i++) {
+            ABT_sched sc;
+            CHK(ABT_sched_create_basic(ABT_SCHED_BASIC, 1, &sp, ABT_SCHED_CONFIG_NULL, &sc));
+            CHK(ABT_xstream_create(sc, &g_xs[i]));
+            g_pools[i] = sp;
+        }
+        return;
+    }
     for (int i = 1; i < g_nes; i++) {
         if (predef == ABT_SCHED_DEFAULT)
             CHK(ABT_xstream_create(ABT_SCHED_NULL, &g_xs[i]));
